@@ -110,9 +110,10 @@ class Gen:
     def build(self):
         rnd, st = self.rnd, self.stypes
         # 1. every status code, on the expected-type branch and on the ERROR_MESSAGE branch
-        # quick: AddROSpecResponse, GetSupportedVersionResponse (status after two version bytes), ErrorMessage itself
-        # as the expected type, and one more chosen by the seed; thorough: every status-bearing type
-        full = list(st) if self.thorough else sorted({30, 56, ERRMSG, rnd.choice([t for t in st if t not in (30, 56, ERRMSG)])} & set(st))
+        # quick: CloseConnectionResponse, AddROSpecResponse, GetSupportedVersionResponse (status after two version bytes),
+        # ErrorMessage itself as the expected type, and two more chosen by the seed; thorough: every status-bearing type
+        rest = [t for t in st if t not in (4, 30, 56, ERRMSG)]
+        full = list(st) if self.thorough else sorted(({4, 30, 56, ERRMSG} | set(rnd.sample(rest, min(2, len(rest))))) & set(st))
         for e in st:
             if e in full:
                 self.r("codes", e, e, 0, 65536)
@@ -171,6 +172,7 @@ def run(tier, seed, replay=None):
         "caller-visible error = nil / errors.As(*StatusError) fields / other; error text is not compared",
         "response value 'untouched' is observed as reflect.DeepEqual with an identically built value (zero or sentinel-filled)",
     ]
+    res.coverage.update(evaluations=0, distinct_nontrivial=0, rule="(run ended before any exchange)", samples=[], trusted_base=res.assumptions)
     vlib.proof_part(res, PID)
     rc, log = vlib.build_oracle("c12")
     if rc != 0:
@@ -262,6 +264,9 @@ def run(tier, seed, replay=None):
                 case = [e, a, c, d, f, p, mode]
                 if len(gt) != 10:
                     fail("harness-answer", "unexpected harness answer: " + g[:200], False, case, g[:300], o[:300])
+                    continue
+                if gt[0] == "skipped":
+                    fail("harness-skipped", "exchanges not run because earlier ones timed out or panicked", False, case, g, o[:300])
                     continue
                 scripted = str(c) + tail
                 if want_samples.get(kind, 0) > 0 and (c in (0, 101, 65535) or kind != "codes") and len(g) < 300:
